@@ -1180,7 +1180,10 @@ def gen_query(g, profile='query'):
     n_snap = r.choice([1, 2, 3]) if profile == 'query' else 1
     for _ in range(n_snap):
         c = r.random()
-        if c < 0.4:
+        if c < 0.1:
+            # the end of the simulated interval, in any time unit
+            at = [1.0, 0, r.choice(si.units_of('Time'))]
+        elif c < 0.4:
             at = [r.random(), 0, r.choice(si.units_of('Time'))]
         elif c < 0.5:
             at = [0.0, 0, 'sec']
@@ -1244,6 +1247,8 @@ def add_query_tail(g, scn, model, p=0.3):
             'torque', 'driving torque', 'load torque', 'pwm']
     at = [r.random(), 0 if g.chance(0.4) else round(r.uniform(0.02, 0.98), 3),
           r.choice(si.units_of('Time'))]
+    if g.chance(0.1):
+        at = [1.0, 0, at[2]]
     sched.append({'op': 'snapshot', 'at': at, 'units': out_units(g),
                   'vars': r.choice([None, [r.choice(base)],
                                     r.sample(base, 2)]),
